@@ -9,7 +9,9 @@ PROP = 'C02'
 LEVEL = 'exploration'
 CASES_ARE_COUNTED = True      # evidence 'evaluations' = executed unifications (counter 'cases')
 TIERS = {'quick': {'runs': 24000, 'budget_s': 40}, 'thorough': {'runs': 1500000, 'budget_s': 600}}
-RULE = ('one run = one seeded history of NEWVAR / PUSH(t1,t2[,swap-trial]) / POP(close|drop|resume) on one engine; '
+RULE = ('one run = one seeded history of NEWVAR / PUSH(t1,t2[,swap-trial][,atoms made by another engine]) / POP(close|drop|resume) / CREATE (generator '
+        'made now) + START (started later, under at least the bindings it was made under) on one engine, 12% of the runs in chain mode '
+        '(alias chains of 9-14 variables whose far end is bound, looked up, unbound and re-bound); '
         'every PUSH is compared with the model unifier (outcome, equality of both sides, canonical form of all pool '
         'variables = most-general + aliasing, symmetric trial, at-most-once on resume). A case = one executed '
         'unification; non-trivial = at least one side compound or executed under >=1 active binding; distinct = '
@@ -23,7 +25,7 @@ ASSUMPTIONS = [
 COMPONENTS = {'real': ['yldprolog.engine unify/Variable/Atom/Functor/unify_arrays', 'CPython generators, refcount finalisation'],
               'stub': ['consumer (seeded scheduler holding the generators)'],
               'oracle': ['Robinson unifier over tuple terms with substitution stack (ypsim.terms)']}
-REQUIRED_PROBES = ('push_ok', 'push_fail', 'push_under_bindings', 'pop_close', 'pop_drop', 'pop_resume', 'swap_trial')
+REQUIRED_PROBES = ('push_under_long_chain', 'started_under_more_bindings_than_created', 'atoms_of_another_engine', 'push_ok', 'push_fail', 'push_under_bindings', 'pop_close', 'pop_drop', 'pop_resume', 'swap_trial')
 
 
 def gen(seed, tier):
@@ -33,10 +35,29 @@ def gen(seed, tier):
     p_pop = rng.choice((0.15, 0.3, 0.45))
     lists = rng.random() < 0.6
     ops = []
+    max_depth = 6
+    if rng.random() < 0.12:
+        # chain mode: a long variable-to-variable alias chain, its far end bound, looked up, unbound and bound again
+        nv = rng.randrange(10, 15)
+        max_depth = 16
+        order = list(range(nv))
+        rng.shuffle(order)
+        order = order[:rng.randrange(9, nv + 1)]
+        for a, b in zip(order, order[1:]):
+            ops.append(['PUSH', ['v', a], ['v', b], False] if rng.random() < 0.7 else ['PUSH', ['v', b], ['v', a], False])
+        for val in rng.sample(['a', 'b', 'ab'], 2):
+            ops.append(['PUSH', ['v', order[-1]], ['a', val], rng.random() < 0.3])
+            ops.append(['POP', rng.choice(('close', 'drop', 'resume'))])
+        ops.append(['PUSH', ['v', order[0]], ['a', 'b'], True])
     for _ in range(rng.randrange(1, 26)):
         k = rng.random()
         if k < 0.06:
             ops.append(['NEWVAR'])
+        elif k < 0.1:
+            t1 = TM.rnd_term(rng, nv + 2, depth, lists=lists)
+            ops.append(['CREATE', TM.J(t1), TM.J(TM.mutate(rng, t1, nv + 2, depth)), rng.random() < 0.2])
+        elif k < 0.15:
+            ops.append(['START', rng.randrange(3)])
         elif k < 0.06 + p_pop:
             ops.append(['POP', rng.choice(('close', 'drop', 'resume'))])
         else:
@@ -47,15 +68,19 @@ def gen(seed, tier):
                 t2 = TM.rnd_term(rng, nv + 2, depth, lists=lists)
             if rng.random() < 0.5:
                 t1, t2 = t2, t1
-            ops.append(['PUSH', TM.J(t1), TM.J(t2), rng.random() < 0.35])
-    return {'nv': nv, 'ops': ops, 'max_depth': 6}
+            ops.append(['PUSH', TM.J(t1), TM.J(t2), rng.random() < 0.35, rng.random() < 0.1])
+    return {'nv': nv, 'ops': ops, 'max_depth': max_depth}
 
 
 def sample_view(plan):
     out = []
     for op in plan['ops']:
         if op[0] == 'PUSH':
-            out.append('PUSH %s = %s%s' % (TM.show(TM.T(op[1])), TM.show(TM.T(op[2])), ' +swap-trial' if op[3] else ''))
+            out.append('PUSH %s = %s%s%s' % (TM.show(TM.T(op[1])), TM.show(TM.T(op[2])), ' +swap-trial' if op[3] else '',
+                                             ' +atoms-of-another-engine' if len(op) > 4 and op[4] else ''))
+        elif op[0] == 'CREATE':
+            out.append('CREATE %s = %s%s (generator made now, started later)' % (TM.show(TM.T(op[1])), TM.show(TM.T(op[2])),
+                                                                              ' +atoms-of-another-engine' if op[3] else ''))
         else:
             out.append(' '.join(map(str, op)))
     return {'pool_variables': plan['nv'], 'history': out}
@@ -65,9 +90,79 @@ def execute(plan):
     from yldprolog.engine import YP, unify
     log = core.Log(keep=plan.get('_keep', False))
     yp = YP()
+    yp2 = YP()          # a second engine: atoms of the same name made by it must unify with this engine's
     pool = Pool(yp, max(1, plan['nv']))
+    pool2 = Pool(yp2, 0)
+    pool2.vars = pool.vars          # same variable objects, other atom store
     s = {}
     stack = []      # (task, substitution before)
+    pending = []    # generators made by CREATE and not started yet: dict(gen, t1, t2, e1, e2, depth)
+
+    def build2(t, foreign):
+        return (pool2 if foreign else pool).build(t)
+
+    def judge(t1, t2, e1, e2, make, swap, foreign, tag):
+        """starts one unification under the current stack and applies the oracles.
+        returns False if a violation was logged"""
+        nonlocal s
+        s2 = TM.munify(t1, t2, s)
+        log.count('cases')
+        want_ok = s2 is not None
+        want_form = pool.model_all(s2 if want_ok else s)
+        r1, r2 = TM.resolve(t1, s), TM.resolve(t2, s)
+        if bool(stack) or r1[0] == 'f' or r2[0] == 'f':
+            log.key((TM.canon([r1, r2]), want_ok, tag))
+        if stack:
+            log.count('push_under_bindings')
+        if len(stack) >= 3:
+            log.count('push_under_deep_stack')
+        if len(stack) >= 9:
+            log.count('push_under_long_chain')
+        if foreign:
+            log.count('atoms_of_another_engine')
+        trial = None
+        if swap:
+            # symmetric trial: unify(t2, t1), observe, undo
+            log.count('swap_trial')
+            tt = GenTask(unify(build2(t2, foreign), pool.build(t1)))
+            ok = tt.step()
+            trial = (ok, pool.observe_all())
+            tt.close()
+        task = GenTask(make())
+        ok = task.step()
+        log.ev(tag, TM.show(t1), TM.show(t2), ok)
+        if ok != want_ok:
+            log.violation('wrong-outcome', {'t1': TM.show(r1), 't2': TM.show(r2), 'engine_yields': ok, 'unifiable': want_ok, 'how': tag})
+            return False
+        form = pool.observe_all()
+        if trial is not None and trial != (ok, form):
+            log.violation('asymmetric', {'t1': TM.show(r1), 't2': TM.show(r2), 'unify_t1_t2': [ok, repr(form)],
+                                         'unify_t2_t1': [trial[0], repr(trial[1])]})
+            return False
+        if ok:
+            log.count('push_ok')
+            ids = pool.ids()
+            o1, o2 = TM.observe(e1, ids), TM.observe(e2, ids)
+            if o1 != o2:
+                log.violation('sides-differ-at-yield', {'t1': TM.show(r1), 't2': TM.show(r2), 'lhs': TM.show(o1), 'rhs': TM.show(o2)})
+                return False
+            if form != want_form:
+                log.violation('not-most-general', {'t1': TM.show(r1), 't2': TM.show(r2), 'how': tag,
+                                                   'engine': [TM.show(x) for x in form], 'mgu': [TM.show(x) for x in want_form]})
+                return False
+            stack.append((task, s))
+            s = s2
+        else:
+            log.count('push_fail')
+            if form != want_form:
+                log.violation('failed-unify-left-bindings', {'t1': TM.show(r1), 't2': TM.show(r2),
+                                                            'engine': [TM.show(x) for x in form]})
+                return False
+            # a failed unification must stay failed
+            if task.step():
+                log.violation('yields-after-failure', {'t1': TM.show(r1), 't2': TM.show(r2)})
+                return False
+        return True
 
     try:
         for op in plan['ops']:
@@ -90,76 +185,61 @@ def execute(plan):
                 # of still active bindings" the consumer holds, so a binding that was not undone - or
                 # an alias that was lost - shows as a wrong outcome or a non-most-general result there.
                 s = s_before
+                # a generator made under bindings that are gone now is not started any more: unify()
+                # dereferences its arguments when it is called, which is only meaningful while the
+                # bindings it saw are still active
+                for pd in [x for x in pending if x['depth'] > len(stack)]:
+                    pending.remove(pd)
+                    g = pd.pop('gen')
+                    g.close() if hasattr(g, 'close') else None
+                    del g
+                    log.ev('pending-discarded')
             elif op[0] == 'PUSH':
                 if len(stack) >= plan.get('max_depth', 6):
                     log.ev('push-noop')
                     continue
+                foreign = len(op) > 4 and op[4]
                 t1, t2 = pool.norm(TM.T(op[1])), pool.norm(TM.T(op[2]))
                 if TM.munify_any_order_cyclic(t1, t2, s):
                     log.count('skipped_cyclic')
                     log.ev('skip-cyclic')
                     continue
-                s2 = TM.munify(t1, t2, s)
-                log.count('cases')
-                want_ok = s2 is not None
-                want_form = pool.model_all(s2 if want_ok else s)
-                r1, r2 = TM.resolve(t1, s), TM.resolve(t2, s)
-                nontrivial = bool(stack) or r1[0] == 'f' or r2[0] == 'f'
-                if nontrivial:
-                    log.key((TM.canon([r1, r2]), want_ok))
-                if stack:
-                    log.count('push_under_bindings')
-                if len(stack) >= 3:
-                    log.count('push_under_deep_stack')
-                trial = None
-                if op[3]:
-                    # symmetric trial: unify(t2, t1), observe, undo
-                    log.count('swap_trial')
-                    tt = GenTask(unify(pool.build(t2), pool.build(t1)))
-                    ok = tt.step()
-                    trial = (ok, pool.observe_all())
-                    tt.close()
-                e1, e2 = pool.build(t1), pool.build(t2)
-                task = GenTask(unify(e1, e2))
-                ok = task.step()
-                log.ev('push', TM.show(t1), TM.show(t2), ok)
-                if ok != want_ok:
-                    log.violation('wrong-outcome', {'t1': TM.show(r1), 't2': TM.show(r2), 'engine_yields': ok, 'unifiable': want_ok})
+                e1, e2 = pool.build(t1), build2(t2, foreign)
+                if not judge(t1, t2, e1, e2, lambda: unify(e1, e2), op[3], foreign, 'push'):
                     break
-                form = pool.observe_all()
-                if trial is not None and trial != (ok, form):
-                    log.violation('asymmetric', {'t1': TM.show(r1), 't2': TM.show(r2), 'unify_t1_t2': [ok, repr(form)],
-                                                 'unify_t2_t1': [trial[0], repr(trial[1])]})
+            elif op[0] == 'CREATE':
+                if len(pending) >= 3:
+                    log.ev('create-noop')
+                    continue
+                t1, t2 = pool.norm(TM.T(op[1])), pool.norm(TM.T(op[2]))
+                e1, e2 = pool.build(t1), build2(t2, op[3])
+                pending.append({'gen': unify(e1, e2), 't1': t1, 't2': t2, 'e1': e1, 'e2': e2, 'depth': len(stack), 'foreign': op[3]})
+                log.ev('create', TM.show(t1), TM.show(t2))
+            elif op[0] == 'START':
+                if not pending or len(stack) >= plan.get('max_depth', 6):
+                    log.ev('start-noop')
+                    continue
+                pd = pending.pop(op[1] % len(pending))
+                if TM.munify_any_order_cyclic(pd['t1'], pd['t2'], s):
+                    log.count('skipped_cyclic')
+                    g = pd.pop('gen')
+                    g.close() if hasattr(g, 'close') else None
+                    del g
+                    continue
+                if len(stack) > pd['depth']:
+                    log.count('started_under_more_bindings_than_created')
+                box = [pd.pop('gen')]       # the task must end up holding the only reference (a drop must be a true drop)
+                if not judge(pd['t1'], pd['t2'], pd['e1'], pd['e2'], box.pop, False, pd['foreign'], 'created-earlier-started-now'):
                     break
-                if ok:
-                    log.count('push_ok')
-                    ids = pool.ids()
-                    o1, o2 = TM.observe(e1, ids), TM.observe(e2, ids)
-                    if o1 != o2:
-                        log.violation('sides-differ-at-yield', {'t1': TM.show(r1), 't2': TM.show(r2), 'lhs': TM.show(o1), 'rhs': TM.show(o2)})
-                        break
-                    if form != want_form:
-                        log.violation('not-most-general', {'t1': TM.show(r1), 't2': TM.show(r2),
-                                                           'engine': [TM.show(x) for x in form], 'mgu': [TM.show(x) for x in want_form]})
-                        break
-                    stack.append((task, s))
-                    s = s2
-                else:
-                    log.count('push_fail')
-                    if form != want_form:
-                        log.violation('failed-unify-left-bindings', {'t1': TM.show(r1), 't2': TM.show(r2),
-                                                                    'engine': [TM.show(x) for x in form]})
-                        break
-                    # a failed unification must stay failed
-                    if task.step():
-                        log.violation('yields-after-failure', {'t1': TM.show(r1), 't2': TM.show(r2)})
-                        break
     except TM.TooDeep:
         log.violation('cyclic-term-built', {'note': 'engine built a cyclic term for a pair the model finds acyclic'})
     except RecursionError:
         log.violation('recursion-error', {'note': 'engine recursed without bound on finite acyclic terms'})
     while stack:
         stack.pop()[0].close()
+    for pd in pending:
+        if hasattr(pd['gen'], 'close'):
+            pd['gen'].close()
     return log.result()
 
 
@@ -173,7 +253,7 @@ def simplify(plan):
             c = dict(plan)
             c['ops'] = plan['ops'][:k] + [op[:3] + [False]] + plan['ops'][k + 1:]
             yield c
-    yield from simplify_ops_terms(plan, {'PUSH': (1, 2)})
+    yield from simplify_ops_terms(plan, {'PUSH': (1, 2), 'CREATE': (1, 2)})
 
 
 def witness(plan, viol):
